@@ -417,6 +417,14 @@ func (p *pathRun) canonMod(E, m *smt.Term) *smt.Term {
 		res = c.Mod(E, m)
 	} else {
 		res = c.Mod(p.polyTerm(q), m)
+		if len(q) == 1 {
+			for _, e := range q {
+				if len(e.atoms) == 1 && e.coef.Cmp(big.NewInt(1)) == 0 && p.knownBelow(e.atoms[0], m.Val) && p.structNonNeg(e.atoms[0], 0) {
+					// a value already known to lie in [0, m) is its own residue
+					p.axiom("residue-of-small-value", c.Eq(res, e.atoms[0]))
+				}
+			}
+		}
 	}
 	if p.canonMemo == nil {
 		p.canonMemo = map[[2]int]*smt.Term{}
